@@ -729,3 +729,26 @@ def _r11h(rep, C: CSide):
     vals = {d[1] for d in defs}
     rep.instance("R11h", "CMakeLists.txt", "phonopy_libs", f"{n_lib} add_library(phonopy_libs ...) / {n_def} THM_EPSILON definitions {sorted(vals)}", n_lib >= 1 and n_def == n_lib and vals == {"1e-10"},
                  "a build variant compiles tetrahedron_method.c without THM_EPSILON=1e-10: the C kernel then divides by zero for degenerate vertices where the other variant returns 0")
+
+
+def selftest():
+    V = []
+    b = lambda name, file, old, new, rule, expect="", **kw: V.append(dict(name=name, kind="break", file=file, old=old, new=new, rule=rule, expect=expect, **kw))
+    n = lambda name, file, old, new, **kw: V.append(dict(name=name, kind="neutral", file=file, old=old, new=new, **kw))
+    b("C _J_11 uses the wrong vertex pair", CF, "static double _J_11(const double omega, const double vertices_omegas[4]) {\n    return _f(1, 0, omega, vertices_omegas) / 4;", "static double _J_11(const double omega, const double vertices_omegas[4]) {\n    return _f(0, 1, omega, vertices_omegas) / 4;", "R11a", "_J_11")
+    b("Python _I_12 divides by 4", PY, "    def _I_12(self):\n        return self._f(2, 0) / 3", "    def _I_12(self):\n        return self._f(2, 0) / 4", "R11a", "_I_12")
+    b("both languages: n_3 with the wrong sign (sum rule only)", CF, "    return (1.0 - _f(0, 3, omega, vertices_omegas) *", "    return (1.0 + _f(0, 3, omega, vertices_omegas) *", "R11b", "n_3", edits=[
+        dict(file=CF, old="    return (1.0 - _f(0, 3, omega, vertices_omegas) *", new="    return (1.0 + _f(0, 3, omega, vertices_omegas) *", nth=0),
+        dict(file=PY, old="        return 1.0 - self._f(0, 3) * self._f(1, 3) * self._f(2, 3)", new="        return 1.0 + self._f(0, 3) * self._f(1, 3) * self._f(2, 3)")])
+    b("C dispatch maps (2,1) to _J_22", CF, "                case 1:\n                    return _J_21(omega, vertices_omegas);", "                case 1:\n                    return _J_22(omega, vertices_omegas);", "R11g", "_J")
+    b("C case split boundary", CF, "            if (v[0] < omega && omega < v[1]) {", "            if (v[0] < omega && omega < v[2]) {", "R11g", "case 1")
+    b("sorting network: missing relabel", CF, "        if (i == 4) {\n            i = 2;\n        }", "        if (i == 4) {\n            i = 1;\n        }", "R11f", "ordering")
+    b("tetrahedra table entry", CF, "            {0, 0, 0},\n            {1, 0, 0},\n            {1, 1, 0},\n            {1, 1, 1},\n", "            {0, 0, 0},\n            {1, 0, 0},\n            {1, 1, 0},\n            {0, 1, 1},\n", "R11c", "main diagonal", nth=0)
+    b("Cauchy kernel without 1/pi", DOS, "        return self._gamma / np.pi / (x**2 + self._gamma**2)", "        return self._gamma / (x**2 + self._gamma**2)", "R11d", "CauchyDistribution")
+    b("smearing total DOS normalised by the number of q-points", DOS, "        ) / np.sum(self._weights)", "        ) / len(self._weights)", "R11e", "_get_density_of_states_at_freq")
+    b("compiled DOS normalised twice", DOS, "        return dos.sum(axis=0).sum(axis=0) / np.prod(mesh)", "        return dos.sum(axis=0).sum(axis=0) / np.prod(mesh) / np.prod(mesh)", "R11e", "run_tetrahedron_method_dos")
+    b("iterator: band skipped outside the frequency window", "phonopy/phonon/tetrahedron_mesh.py", "                iw = self._tm.get_integration_weight()\n", "                iw = self._tm.get_integration_weight() if frequencies.min() <= self._frequency_points.max() else 0\n", "R11i", "__next__")
+    b("THM_EPSILON missing for the static library", "CMakeLists.txt", "    target_compile_definitions(phonopy_libs PRIVATE THM_EPSILON=1e-10)\nelse", "else", "R11h", "phonopy_libs", nth=0)
+    n("Python _n_1 factors reordered", PY, "        return self._f(1, 0) * self._f(2, 0) * self._f(3, 0)", "        return self._f(3, 0) * self._f(1, 0) * self._f(2, 0)")
+    n("case split written as a chained comparison", PY, "            elif v[0] < omega and omega < v[1]:", "            elif v[0] < omega < v[1]:")
+    return V
